@@ -90,6 +90,7 @@ def actions(weights, fail_heavy=False, bodies=False):
         'serve': _outcomes(fail_heavy).map(lambda o: ['serve', o]),
         'storage': st.just(['storage']),
         'answer': _outcomes(fail_heavy).map(lambda o: ['answer', o]),
+        'fault': st.integers(0, 3).map(lambda i: ['fault', i]),
     }
     pool = []
     for k, w in weights.items():
@@ -364,5 +365,31 @@ def announce_window_history():
         tail = draw(st.lists(st.one_of(st.integers(0, 4).map(lambda i: ['release', i, OK]), st.integers(0, 4).map(lambda i: ['release', i, OK]),
                                        st.just(['announce', 0]), st.just(['tick']), st.just(['storage']), st.just(['answer', OK]),
                                        st.just(['answer', T])), min_size=2, max_size=12))
+        return cfg, acts + tail
+    return strat()
+
+
+def storage_fault_history():
+    """One of the storage operations that record the outcome of a partial round fails with an I/O error (C03 only: no settled
+    recipient may be attempted again afterwards, whatever else happens to the message)."""
+    T = {'shape': 'raise_t', 'replies': [0]}
+    OK = {'shape': 'none'}
+
+    @st.composite
+    def strat(draw):
+        cfg = {'backend': draw(st.sampled_from(['dict', 'dict', 'disk', 'shelf', 'redis'])), 'backoff': [draw(st.sampled_from([0, 0, 5]))],
+               'backoff_forever': True, 'announce': draw(st.booleans())}
+        n = draw(st.integers(2, 4))
+        acts = [['enqueue', {'n': n, 'sender': True, 'body': ''}]]
+        if draw(st.booleans()):
+            acts.append(['enqueue', {'n': 1, 'sender': True, 'body': ''}])
+        per = draw(st.lists(st.sampled_from(['ok', 'temp', 'perm', 'ok', 'temp']), min_size=n, max_size=n))
+        acts.append(['answer', draw(st.sampled_from([{'shape': 'map', 'per': per, 'replies': [0]}, {'shape': 'seq', 'per': per, 'replies': [0]}, T]))])
+        for _ in range(draw(st.integers(0, 2))):
+            acts.append(['release', 0, OK])
+        acts.append(['fault', draw(st.integers(0, 2))])
+        tail = draw(st.lists(st.one_of(st.integers(0, 4).map(lambda i: ['release', i, OK]), st.just(['tick']), st.just(['storage']),
+                                       st.just(['answer', OK]), st.just(['answer', T]), st.just(['announce', 0]), st.just(['flush']),
+                                       st.just(['advance', 41])), min_size=2, max_size=14))
         return cfg, acts + tail
     return strat()
